@@ -361,8 +361,68 @@ pub fn optimize(m: &GenModel, obj: &[Q], offset: Q, maximize: bool) -> Decision 
     }
 }
 
+/// Fast path for pure 0/1 feasibility models with integer data (the deep-search family):
+/// Gray-code enumeration with incremental i64 row sums. `None` when the model is not of that
+/// shape.
+fn decide_binary_feasibility(m: &GenModel) -> Option<Decision> {
+    use crate::model::Dom;
+    let n = m.n();
+    if !(13..=26).contains(&n)
+        || !m.vars.iter().all(|v| v.dom == Dom::Bool)
+        || m.effective_obj().iter().any(|c| *c != 0.0)
+    {
+        return None;
+    }
+    let integral = |x: f64| x == x.trunc() && x.abs() < 9.0e15;
+    if !m.rows.iter().all(|r| integral(r.rhs) && r.coefs.iter().all(|c| integral(*c))) {
+        return None;
+    }
+    let coefs: Vec<Vec<i64>> = m
+        .rows
+        .iter()
+        .map(|r| r.coefs.iter().map(|c| *c as i64).collect())
+        .collect();
+    let rhs: Vec<i64> = m.rows.iter().map(|r| r.rhs as i64).collect();
+    let ok = |sums: &[i64]| {
+        m.rows.iter().enumerate().all(|(i, r)| match r.cmp {
+            Cmp::Le => sums[i] <= rhs[i],
+            Cmp::Ge => sums[i] >= rhs[i],
+            Cmp::Eq => sums[i] == rhs[i],
+        })
+    };
+    let mut sums = vec![0i64; m.rows.len()];
+    let mut x = vec![false; n];
+    let mut feasible = 0u64;
+    if ok(&sums) {
+        feasible += 1;
+    }
+    for step in 1u64..(1u64 << n) {
+        let bit = step.trailing_zeros() as usize; // Gray code: flip this bit
+        x[bit] = !x[bit];
+        let sign = if x[bit] { 1 } else { -1 };
+        for (i, row) in coefs.iter().enumerate() {
+            sums[i] += sign * row[bit];
+        }
+        if ok(&sums) {
+            feasible += 1;
+        }
+    }
+    Some(Decision {
+        verdict: if feasible > 0 {
+            Verdict::Optimal(Q::from_f64(m.offset))
+        } else {
+            Verdict::Infeasible
+        },
+        int_points: 1u64 << n,
+        feasible_int_points: feasible,
+    })
+}
+
 /// Decides the model with its own objective and sense.
 pub fn decide(m: &GenModel) -> Decision {
+    if let Some(d) = decide_binary_feasibility(m) {
+        return d;
+    }
     let obj: Vec<Q> = m.effective_obj().iter().map(|c| Q::from_f64(*c)).collect();
     let offset = Q::from_f64(m.offset);
     match m.sense {
